@@ -35,7 +35,7 @@ def one(name):
         os.makedirs(env['VERIF_EVIDENCE'], exist_ok=True)
         for p in props:
             r = subprocess.run([os.path.join(ROOT, 'bin', 'check'), p, '--tier', 'quick'], capture_output=True, text=True, env=env)
-            rules = sorted(set(re.findall(r'^   violated (R[0-9.a-z]+)', r.stdout, re.M)))
+            rules = sorted(set(re.findall(r'^   violated ([RO][0-9.a-z]+)', r.stdout, re.M)))
             if r.returncode == 1:
                 out[p] = rules or ['?']
             elif r.returncode != 0:
